@@ -586,9 +586,58 @@ func (h *history) schemaChange() {
 	}
 }
 
+// readOnlyStep runs a transaction that reads, filters, aggregates and issues operations the API
+// defines as no-ops (DeleteAt of a free offset, an empty row callback), and commits: nothing may
+// change and nothing may be emitted to the change stream.
+func (h *history) readOnlyStep() {
+	m := h.wd.M
+	free := uint32(0)
+	for m.Live[free] {
+		free++
+	}
+	live := h.liveRows()
+	h.feedReplica()
+	h.wd.cutTriggers()
+	var deleted bool
+	err := h.wd.P.Query(func(txn *column.Txn) error {
+		txn.Count()
+		txn.With("expire").Count()
+		txn.Range(func(uint32) {})
+		deleted = txn.DeleteAt(free) // not a live row: refused, nothing buffered
+		if len(live) > 0 {
+			txn.QueryAt(live[h.rng.Intn(len(live))], func(r column.Row) error { r.Int64("expire"); return nil })
+		}
+		txn.Int64("expire").Sum()
+		return nil
+	})
+	h.stats["read_only_txns"]++
+	h.logf("read-only txn{Count; With(expire).Count; Range; DeleteAt(free %d); QueryAt; Sum} => %v", free, err)
+	emitted := h.feedReplica()
+	trig := h.wd.cutTriggers()
+	ncb := 0
+	for _, evs := range trig {
+		ncb += len(evs)
+	}
+	switch {
+	case err != nil || deleted:
+		h.violate("txn", fmt.Sprintf("read-only transaction: err=%v, DeleteAt(free offset %d)=%v", err, free, deleted), "")
+	case len(emitted) > 0 && h.cfg.Oracles["stream"]:
+		h.violate("stream", fmt.Sprintf("a transaction that changed nothing emitted %d commit(s): %v", len(emitted), emitted), "")
+	case ncb > 0 && h.cfg.Oracles["trig"]:
+		h.violate("trigger", fmt.Sprintf("a transaction that changed nothing caused %d trigger callbacks", ncb), "")
+	}
+}
+
 func (h *history) txnStep() {
 	cfg := h.cfg
 	m := h.wd.M
+	if (cfg.Oracles["stream"] || cfg.Oracles["trig"] || cfg.Oracles["rollback"]) && h.rng.Intn(12) == 0 {
+		h.readOnlyStep()
+		if !h.failed {
+			h.check(nil, nil, false)
+		}
+		return
+	}
 	spec := h.g.genTxn(m, h.liveRows(), cfg.Txn)
 	if len(spec.Ops) == 0 {
 		return
